@@ -439,6 +439,8 @@ pub fn opcodes_weight(opcodes: &[OpCode]) -> u128 {
         // suffix = weight of opcodes[j + 1..end] while position j is processed
         let mut suffix = 0u128;
         for j in (0..end).rev() {
+            #[cfg(melstf_verif)]
+            crate::verif_hooks::WEIGH_PASS_STEPS.fetch_add(1, std::sync::atomic::Ordering::Relaxed);
             let car = match &opcodes[j] {
                 OpCode::Loop(iters, body_len) => {
                     let body_end = natural_end(j, *body_len);
